@@ -25,7 +25,7 @@ RULE = (
     "interpreter with NUMBA_DISABLE_JIT=1 (thorough: also compiled with NUMBA_BOUNDSCHECK=1): an IndexError there means the "
     "production machine code reads outside its array. End-to-end: a fixed set of run cards (all schemes, PTO<=3, TMC, scale "
     "variations; groups of four run back to back in one process on the same grid nodes with changing degree and log flag) "
-    "are computed with JIT on (parent) and off (child), operators must agree to quadrature accuracy (1e-12 LO, 1e-6 NLO, "
+    "are computed with JIT on (parent) and off (child) - once more with the documented integration knobs of yadism.esf.conv set to non-default values in both modes -, operators must agree to quadrature accuracy (1e-12 LO, 1e-6 NLO, "
     "1e-4 beyond, relative to the tensor scale; the kernels themselves agree to 1e-10). "
     "Non-trivial = kernel called with a harvested vector, or an end-to-end pair with non-zero operators."
 )
@@ -34,7 +34,7 @@ ASSUMPTIONS = [
     "py_func of a kernel still calls compiled callees; whole-interpreter semantics is covered by the NUMBA_DISABLE_JIT child",
 ]
 BUDGET = {"quick": {"examples": 4000, "wall": 420}, "thorough": {"examples": 600000, "wall": 2400}}
-MANDATORY = {t: ["nontrivial", "oob-child", "e2e", "harvested-vector", "sig:f8(f8,f8[:])", "sig:f8(f8)", "sig:nielsen"] for t in ("quick", "thorough")}
+MANDATORY = {t: ["nontrivial", "oob-child", "e2e", "e2e:integration-knobs-changed", "harvested-vector", "sig:f8(f8,f8[:])", "sig:f8(f8)", "sig:nielsen"] for t in ("quick", "thorough")}
 SHRINK = {"quick": True, "thorough": True}
 
 _DISP = None
@@ -177,6 +177,9 @@ def enumerated(tier):
     cs = e2e_cards(tier)
     for i in range(0, len(cs), 4):
         out.append({"mode": "e2e", "cards": cs[i : i + 4]})
+    # the documented run-time knobs of the integration (module attributes of yadism.esf.conv) set to non-default values in both
+    # modes: compiled code must read them when it runs, as the interpreter does, not when it was compiled
+    out.append({"mode": "e2e", "cards": cs[0:2] + cs[4:6], "knobs": {"eps_integration_border": 1e-4, "eps_integration_abs": 1e-9}})
     # every kernel with deterministic points and every harvested vector
     zs = [1e-7, 1e-3, 0.1, 0.5, 0.9, 0.999, 1 - 1e-7]
     vec = vectors()
@@ -277,15 +280,26 @@ def check_case(case):
         v.label("e2e")
         with tempfile.TemporaryDirectory(prefix="yv_c18_") as tmp:
             inp, outp = os.path.join(tmp, "in.json"), os.path.join(tmp, "out.json")
-            json.dump(case["cards"], open(inp, "w"))
+            knobs = case.get("knobs") or {}
+            json.dump([dict(c, knobs=knobs) for c in case["cards"]], open(inp, "w"))
             child(["e2e", inp, outp], {"NUMBA_DISABLE_JIT": "1"})
             ref = json.load(open(outp))
+        if knobs:
+            v.label("e2e:integration-knobs-changed")
+        from yadism.esf import conv as _conv
+
+        saved = {k: getattr(_conv, k) for k in knobs}
         for c, r in zip(case["cards"], ref):
             try:
+                for k, val in knobs.items():
+                    setattr(_conv, k, val)
                 o = run.run(c["theory"], c["obs"])
                 mine = {"ok": True}
             except Exception as e:  # pylint: disable=broad-except
                 mine = {"ok": False, "error": str(e)}
+            finally:
+                for k, val in saved.items():
+                    setattr(_conv, k, val)
             tag = f"{c['name']}:{c['theory']['FNS']}:pto{c['theory']['PTO']}:tmc{c['theory']['TMC']}"
             if mine["ok"] != r["ok"]:
                 v.fail(f"C18:e2e-outcome:{tag}", f"JIT on ok={mine['ok']} vs JIT off ok={r['ok']}: {mine.get('error') or r.get('error')}")
